@@ -70,6 +70,7 @@ type Out struct {
 
 	recycleTicks int
 	kindSamples  map[string]int
+	recent       []json.RawMessage
 
 	// StuckFlag (set by the worker to &simsched.Stuck) and OnStuck (set per case):
 	// see Watch.
@@ -141,9 +142,29 @@ func (o *Out) Watch(limit time.Duration) {
 	}()
 }
 
+// Remember keeps the last few completed cases of this process (as replayable
+// JSON).  They travel with every finding as its "prelude": if a violation does not
+// reproduce on its own in a fresh process - because it needs state that earlier
+// cases left behind in the process (a pool, a package-level cache) - the driver
+// replays prelude + case as one history.
+func (o *Out) Remember(c any) {
+	b, err := json.Marshal(c)
+	if err != nil || len(b) > 1<<20 {
+		return
+	}
+	o.recent = append(o.recent, json.RawMessage(b))
+	if len(o.recent) > 4 {
+		o.recent = o.recent[len(o.recent)-4:]
+	}
+}
+
 // Finding reports one violation candidate with the replayable case.
 func (o *Out) Finding(id any, sig, kind, msg string, replay any) {
-	o.Emit(map[string]any{"t": "finding", "case": id, "sig": sig, "kind": kind, "msg": msg, "replay": replay})
+	m := map[string]any{"t": "finding", "case": id, "sig": sig, "kind": kind, "msg": msg, "replay": replay}
+	if len(o.recent) > 0 {
+		m["prelude"] = append([]json.RawMessage(nil), o.recent...)
+	}
+	o.Emit(m)
 }
 
 // Trace writes one line per case for the determinism self-test (only when
